@@ -154,6 +154,16 @@ structure BufferedIterSelfP where
   atomic_iter : IterSelf := {}
   deriving Repr
 
+/-- `Cloned<'a, T, ConIterOfIter<..>>` / `Copied<..>`: the wrapped wrapper -/
+structure AdaptSelfP where
+  iter : IterSelf := {}
+  deriving Repr
+
+/-- `ClonedBufferedChunk` / `CopiedBufferedChunk` over `BufferIter` -/
+structure AdaptBufSelfP where
+  chunk : BufIterSelf
+  deriving Repr
+
 /-! ## `usize`, `Option`, `Vec` -/
 
 variable {ρ : Type}
@@ -241,6 +251,16 @@ def m_the {α : Type} (o : Option α) : PF ρ α :=
 def m_join {α : Type} (o : Option (Option α)) : PF ρ (Option α) := pure o.join
 def m_len {α : Type} (l : List α) : PF ρ Nat := pure l.length
 def m_into_iter {α : Type} (l : List α) : PF ρ (List α) := pure l
+
+/-- `Option::cloned` / `Iterator::cloned` (and `copied`): the same positions (a clone is not an access to shared state; that a
+panicking `Clone` unwinds only its own call is the subject of C18's streams) -/
+class MCloned (C : Type) where
+  m_cloned : C → PF ρ C
+  m_copied : C → PF ρ C
+export MCloned (m_cloned m_copied)
+instance : MCloned (ρ := ρ) (Option Nat) := ⟨pure, pure⟩
+instance : MCloned (ρ := ρ) (List Nat) := ⟨pure, pure⟩
+instance : MCloned (ρ := ρ) BufferedIter := ⟨pure, pure⟩
 
 /-- `Iterator::next` of the wrapped iterator: two scheduling points (entry, exit); a panic unwinds -/
 def m_next (_h : WrappedH) : PF ρ (Option Nat) :=
